@@ -442,6 +442,14 @@ func compareValues(left, right any, operator string) (bool, error) {
 		}
 	}
 
+	// Two strings compare as strings, also when both look like numbers
+	// ('10' < '9', '7.0' != '7'); a string against a number still compares numerically.
+	if ls, ok := left.(string); ok {
+		if rs, ok := right.(string); ok {
+			return compareStrings(ls, rs, operator)
+		}
+	}
+
 	// Try numeric comparison
 	leftFloat, leftIsFloat := convertToFloatSafe(left)
 	rightFloat, rightIsFloat := convertToFloatSafe(right)
@@ -551,6 +559,13 @@ func compareValuesForEquality(left, right any) bool {
 	}
 	if left == nil || right == nil {
 		return false
+	}
+
+	// Two strings are equal when they are the same string ('7.0' is not '7')
+	if ls, ok := left.(string); ok {
+		if rs, ok := right.(string); ok {
+			return ls == rs
+		}
 	}
 
 	// Try numeric comparison
